@@ -13,7 +13,7 @@ RULE = ("a virtual signal (the handler is called synchronously on the interrupte
         "the preemption / store-delay budget; the handler runs rcu_read_lock; load x; load y; rcu_read_unlock; oracles: "
         "rcu_read_ongoing() identical before and after each handler and correct inside/outside sections, C01 litmus and interval "
         "oracles for the handler's section and for the interrupted section, termination (self-deadlock on a library mutex), "
-        "callback of an interrupted call_rcu runs exactly once; FUTEX_WAIT interrupted by the signal (EINTR) in the grace-period leader and in "
+        "callback of an interrupted call_rcu runs exactly once; bp: also inside the fork handlers of a registered / not yet registered thread; FUTEX_WAIT interrupted by the signal (EINTR) in the grace-period leader and in "
         "batched synchronize_rcu waiters must not lose the wake-up")
 ASSUMPTIONS = ["x86-TSO", "signals are delivered only between instrumented accesses (every library load/store is announced)",
                "memb/mb: the signal is blocked by the application while the thread is not registered (documented contract)"]
@@ -49,6 +49,9 @@ def jobs(tier):
             for tgt in (1, 2, 3):
                 J.append(Job(b, "sig", "1,0,0,1", dict(p1, target=tgt, main_registered=0, init_reader_count=2), env, workers=8))
                 J.append(Job(b, "sig", "0,0,0,2", dict(p1, target=tgt, main_registered=0), env, workers=8))
+            # the signal may land inside urcu_bp_before_fork / after_fork_parent of a thread that is not registered yet
+            J.append(Job(b, "sig", "1,0,0,1", dict(p1, target=2, main_registered=0, forkh=1), env, workers=8))
+            J.append(Job(b, "sig", "1,0,0,1", dict(p1, target=2, main_registered=1, forkh=1), env, workers=8))
     return J
 
 
